@@ -519,6 +519,10 @@ DemoAttrAnyQuote == DemoAttr({"ValueEndsAtAnyQuote"})
 \* ... and a parse_attrs whose NAME class is the positive class of start tags: TLC finds the table position
 \* whose written name it cuts (universe "NAME")
 DemoAttrNameClass == DemoAttr({"NameClassOfStartTags"})
+\* Demo: with the found behaviour of table_hdr_cell_fn (a !! inside an argument reference / parser function, inside a
+\* bold / italic run of a data cell ends the construct) TLC finds the table of universe "SEP" that loses its grid
+DemoHdrSepCall == DemoAttr({"HdrSepEndsCall"})
+DemoHdrSepFormat == DemoAttr({"HdrSepEndsFormat"})
 \* Demo: with the found behaviour of table_cell_fn the law fails (a caption followed by a data cell)
 DemoAsIs == done \/ Equiv(Run(Render(page), AllParserDevs).stack[1], TreeOf(page))
 =============================================================================
